@@ -121,7 +121,7 @@ def run(res):
         reports, w = wl.run_impl(cfg, ops, chdir, hook=hook)
         files = wl.dump_files(chdir)
         mrep, mfiles = wl.parse_model(out, len(ops))
-        hist = {"cfg": cfg.as_dict(), "ops": [list(o) for o in ops]}
+        hist = {"cfg": cfg.as_dict(), "ops": [list(o) for o in ops], "directory_spelling": getattr(w, "_verif_pform", None)}
         res.case((cfg.key(), str(ops)))
         res.count("session_histories")
         res.count("sessions", 1 + sum(1 for o in ops if o[0] == "session"))
@@ -164,6 +164,13 @@ def run(res):
         missing = [k for k in m_acc if k not in stored]
         if missing:
             res.violation("accepted-sample-lost", "a sample of an accepted write is not stored after later sessions", hist, "stored", missing[:3])
+        # oracle 0: a new session with the parameters of the channel is accepted (only a differing parameter refuses it)
+        for j, (op, r) in enumerate(zip(ops, reports)):
+            if op[0] == "session" and r[0] != 0:
+                res.violation("same-parameter-session-refused", "a new session on the same channel directory with identical "
+                              "parameters (the recorder passes the same path object again) was refused", dict(hist, call=j),
+                              "accepted", r[:2])
+                break
         # oracle 3: refusal leaves the writer usable for a later period
         start = cfg.start
         seen_refusal_files = set()
